@@ -42,6 +42,15 @@ func c20Ops() []APICall {
 		{Op: "scale", Name: "a", N: 2},
 		{Op: "update", YAML: c20YAML(true)},
 		{Op: "shutdown"},
+		// a single-process edit (TUI edit, POST /process) of b
+		fn("edit(b)", func(w *World) (string, error) {
+			p, err := w.LoadYAML(fmt.Sprintf("edit-%d.yaml", len(w.trace)), strings.Replace(c20YAML(true), "K=2", "K=3", 1))
+			if err != nil {
+				return "", err
+			}
+			pc := p.Processes["b"]
+			return "", w.Runner.UpdateProcess(&pc)
+		}),
 	}
 }
 
@@ -72,9 +81,16 @@ func c20Scenarios(tier string) []*Scenario {
 		for j := i; j < len(ops); j++ {
 			c1, c2 := ops[i], ops[j]
 			c1.When, c2.When = launched, launched
+			edit := c1.Name == "edit(b)" || c2.Name == "edit(b)"
+			if edit && c1.Op == "fn" && c1.Name != "reload" && c1.Name != "edit(b)" {
+				continue // (the edit is paired with the state-changing requests; queries are paired with update and reload)
+			}
 			tb := 1
-			if tier != "thorough" && (c1.Op == "scale" || c2.Op == "scale" || c1.Op == "update" || c2.Op == "update") && c1.Op != "restart" && c2.Op != "restart" {
+			if tier != "thorough" && (c1.Op == "scale" || c2.Op == "scale" || c1.Op == "update" || c2.Op == "update" || c1.Name == "edit(b)" || c2.Name == "edit(b)") && c1.Op != "restart" && c2.Op != "restart" {
 				tb = 0 // the heavy pairs: no free timer choice in quick mode (restart is the only request that sleeps)
+			}
+			if edit {
+				tb = 0
 			}
 			sc := &Scenario{
 				ID:   "c20-" + label(c1) + "|" + label(c2),
@@ -85,6 +101,9 @@ func c20Scenarios(tier string) []*Scenario {
 				},
 				K: k, TickBudget: tb, Idle: 12 * time.Second,
 				API: [][]APICall{{c1}, {c2}},
+			}
+			if edit && tier != "thorough" && (c1.Op == "scale" || c2.Op == "scale") {
+				sc.K = 0 // the heaviest pair (two renames and two replacements): event orders only in the quick tier
 			}
 			pair := label(c1) + "|" + label(c2)
 			sc.Check = func(w *World) []Violation { return c20Check(w, pair) }
